@@ -62,6 +62,9 @@ MUTANTS = [
     ("dot-race", U, "            out[row] += a[col][row] * b[col]", "            out[col] += a[col][row] * b[col]", None, "_nb_dot", "iterations write each other's slots"),
     ("nro-min", U, "        return x if x <= y else y", "        return x if x >= y else y", None, "NumbaReductionOps.min", "min is max"),
     ("gnm-guard", N, "        if key < 0:\n            # null group key: belongs to no group and must not touch group state\n            continue\n", "", None, "group_nearby_members", "null-key rows update the last group"),
+    ("ffc-ge", CO, "            if cum_length > start:\n", "            if cum_length >= start:\n", None, "_find_first_chunk_in_slice", "a chunk that ends exactly at the first selected row is taken as the first chunk of the slice"),
+    ("ffc-negstart", CO, "            start = len(self) + mask.start\n", "            start = len(self) - mask.start\n", None, "_find_first_chunk_in_slice[start=int", "negative slice start resolved with the wrong sign"),
+    ("isnull-int", U, "            return x == MIN_INT\n", "            return x <= MIN_INT + 1\n", None, "jit_is_null.is_null#1", "a second integer value is read as null"),
     ("isnull-neg", U, "        out[i] = is_null(arr[i])", "        out[i] = not is_null(arr[i])", None, "arr_is_null", "inverted"),
 ]
 
